@@ -2,7 +2,7 @@
 # Builds /verif/.venv: an overlay on /venv (the repository's own interpreter and packages) plus
 # z3-solver, cvc5 and crosshair-tool from the offline wheelhouse.  Idempotent; no network.
 set -e
-V=/verif/.venv
+V="$(cd "$(dirname "$0")/.." && pwd)/.venv"
 if [ -x "$V/bin/python" ] && "$V/bin/python" -c "import z3, basana" >/dev/null 2>&1; then
     exit 0
 fi
